@@ -17,6 +17,7 @@ package main
 import (
 	"fmt"
 	"os"
+	"runtime"
 	"sort"
 	"time"
 
@@ -192,6 +193,30 @@ func apply(g *verifapi.Graph, nm *namer, o op) (Sx, bool) {
 	return Sx{}, false
 }
 
+func watchdog(done chan []string, limit time.Duration) ([]string, bool) {
+	select {
+	case cyc := <-done:
+		return cyc, false
+	case <-time.After(50 * time.Millisecond):
+	}
+	var ms runtime.MemStats
+	runtime.ReadMemStats(&ms)
+	base, t0 := ms.HeapAlloc, time.Now()
+	tick := time.NewTicker(50 * time.Millisecond)
+	defer tick.Stop()
+	for {
+		select {
+		case cyc := <-done:
+			return cyc, false
+		case <-tick.C:
+			runtime.ReadMemStats(&ms)
+			if (ms.HeapAlloc > base && ms.HeapAlloc-base > 3<<29) || time.Since(t0) > limit {
+				return nil, true
+			}
+		}
+	}
+}
+
 // hungAt > 0: FindCycle did not return within the watchdog's time at the op with this 1-based index
 var hungAt int
 
@@ -270,17 +295,19 @@ func runCase(nm *namer, ops []op) (obs []Sx) {
 		case "cycle":
 			// FindCycle is run under a watchdog: a walk back through a corrupted parent map never ends
 			// (and allocates all the way).  A hang is an observation; the case is cut after it and the
-			// process stops, because the runaway goroutine cannot be cancelled.
+			// process stops, because the runaway goroutine cannot be cancelled.  The watchdog does not
+			// judge by a short time (a ring of 10^6 nodes legitimately takes seconds on a loaded machine):
+			// it fires when the call has allocated 1.5 GiB beyond the heap at its 50th millisecond, or
+			// after 20 s + 100 us per operation and bulk element of the case.
 			done := make(chan []string, 1)
 			go func(seed string) { done <- g.FindCycle(seed) }(nm.of(o.a))
-			select {
-			case cyc := <-done:
-				obs = append(obs, T("cycle", Ints(nm.uns(cyc))))
-			case <-time.After(400 * time.Millisecond):
+			cyc, hung := watchdog(done, 20*time.Second+time.Duration(size+len(ops))*100*time.Microsecond)
+			if hung {
 				obs = append(obs, T("hang"))
 				hungAt = len(obs)
 				return
 			}
+			obs = append(obs, T("cycle", Ints(nm.uns(cyc))))
 		default:
 			panic("unknown op " + o.kind)
 		}
